@@ -32,7 +32,9 @@ def enc_minimums(ctx):
             out[(lst, '*', '*')] = int(ms[1])
         elif ms is not None and ms[0] == 'phi':
             # constants assigned per (version, is_last): recover guards of each defining block
-            l = [i for i, loc in enumerate(b.locals) if loc.get('name') == 'minimum_size' and len(b.defs().get(i, [])) > 1]
+            # the variable handed over as minimum size (found through that use, not by name)
+            rl = root_local(b, s.data['args'][2])
+            l = [rl] if rl is not None and len(b.defs().get(rl, [])) > 1 else []
             for li in l:
                 for d in b.defs()[li]:
                     if d[2] != 'assign':
